@@ -60,3 +60,219 @@ def strip_errors(g):
         nt.alts = [a for a in nt.alts if not any(it.sym.k == "err" for it in a.items)]
     g2.nts = [nt for nt in g2.nts]
     return g2
+
+
+# ------------------------------------------------------------------------------------------
+# profile `macros` (C13)
+
+def _named_alt(items_syms, names=None):
+    names = list(names or NAMES)
+    alt = Alt([Item(s, ("name", names.pop(0), False)) for s in items_syms])
+    alt.action = "named" if alt.items else "none_sel"
+    return alt
+
+
+def _macro_defs(rng, terms):
+    """returns list of (NT macro definition, kind) ; kinds: wrap, pair, cond, list, rec, opt"""
+    t = lambda: T(rng.choice(terms))
+    defs = []
+    kinds = rng.sample(["wrap", "pair", "cond", "list", "rec", "opt", "wrap2"], rng.randint(1, 4))
+    for k in kinds:
+        if k == "wrap":
+            alts = [_named_alt([t(), N("X")]), _named_alt([N("X"), N("X"), t()])]
+            if rng.random() < 0.5:
+                alts.append(_named_alt([t()]))
+            defs.append((NT("Wrap", alts[:rng.randint(1, len(alts))], ty="V", params=["X"]), k))
+        elif k == "wrap2":
+            # uses its parameter inside a group and a repeat, and another macro inside
+            alts = [_named_alt([Grp([Item(N("X")), Item(t())]), Rep(N("X"), rng.choice("?*"))])]
+            defs.append((NT("Nest", alts, ty="V", params=["X"]), k))
+        elif k == "pair":
+            a = Alt([Item(N("X"), ("sel",)), Item(N("Y"), ("sel",) if rng.random() < 0.6 else None)])
+            defs.append((NT("Pair", [a], params=["X", "Y"]), k))
+        elif k == "cond":
+            lit = rng.choice(terms)
+            lit2 = rng.choice(terms)
+            alts = []
+            a1 = _named_alt([N("X"), t()])
+            a1.cond = ("X", rng.choice(["==", "!="]), lit)
+            alts.append(a1)
+            a2 = _named_alt([t(), N("X")])
+            op2 = rng.choice(["!=", "==", "~~", "!~"])
+            a2.cond = ("X", op2, rng.choice(["^[ab]$", "[c-e]", "^a", "b$", "^.$"]) if op2 in ("~~", "!~") else rng.choice([lit2, lit]))
+            alts.append(a2)
+            a3 = _named_alt([N("X")])
+            if rng.random() < 0.5:
+                a3.cond = ("X", "!~", "^zz")
+            alts.append(a3)
+            defs.append((NT("Cond", alts, ty="V", params=["X"]), k))
+        elif k == "list":
+            sep = t()
+            a = Alt([Item(Rep(Grp([Item(N("X"), ("sel",)), Item(sep)]), "*"), ("sel",)), Item(Rep(N("X"), "?"), ("sel",))])
+            defs.append((NT("List", [a], params=["X"]), k))
+        elif k == "opt":
+            a = Alt([Item(Rep(N("X"), "?"), None), Item(t(), None)])
+            defs.append((NT("Opt", [a], params=["X"]), k))
+        elif k == "rec":
+            a1 = _named_alt([Mac("Tier", [N("Op"), N("Next")]), N("Op"), N("Next")])
+            a2 = _named_alt([N("Next")])
+            defs.append((NT("Tier", [a1, a2], ty="V", params=["Op", "Next"]), k))
+    return defs
+
+
+def gen_macros(rng):
+    g = gen.gen_core(rng, modes=("user", "user", "user", "unit"), sugar=0.1, fallible=0.0, template=0.6)
+    terms = list(g.terms)
+    if rng.random() < 0.3:
+        # terminal names that look like macro syntax: try to confuse printed cache keys
+        for extra in rng.sample([",", ">", "<", "a, b", "(", ")", "*", "?", "a>", "<a"], 2):
+            if extra not in terms:
+                terms.append(extra)
+        g.terms = terms
+    defs = _macro_defs(rng, terms)
+    user_nts = [nt.name for nt in g.nts if nt.ty == "V"]
+
+    def arg(depth=0, literal=False):
+        k = rng.random()
+        if literal or k < 0.45:
+            return T(rng.choice(terms))
+        if k < 0.65 and user_nts:
+            return N(rng.choice(user_nts))
+        if k < 0.75:
+            return Rep(T(rng.choice(terms)), rng.choice("?*+"))
+        if k < 0.88:
+            return Grp([Item(T(rng.choice(terms))), Item(T(rng.choice(terms)))])
+        if depth < 1:
+            d, kind = rng.choice(defs)
+            if kind not in ("cond",):
+                return Mac(d.name, [arg(depth + 1) for _ in d.params])
+        return T(rng.choice(terms))
+
+    uses = 0
+    hosts = [nt for nt in g.nts if nt.ty == "V"]
+    for _ in range(rng.randint(2, 6)):
+        if not hosts:
+            break
+        nt = rng.choice(hosts)
+        alt = rng.choice(nt.alts)
+        if alt.action not in ("named", "angle", "none_sel"):
+            continue
+        d, kind = rng.choice(defs)
+        m = Mac(d.name, [arg(literal=(kind == "cond")) for _ in d.params])
+        used = {it.bind[1] for it in alt.items if it.bind and it.bind[0] == "name"}
+        fresh = [n for n in ["m1", "m2", "m3", "m4", "m5", "m6", "m7", "m8"] if n not in used]
+        if not fresh:
+            continue
+        if alt.action == "named":
+            b = ("name", fresh[0], False) if fresh else None
+        elif alt.action == "angle":
+            any_sel = any(it.bind and it.bind[0] == "sel" for it in alt.items)
+            any_named = any(it.bind and it.bind[0] == "name" for it in alt.items)
+            b = ("name", fresh[0], False) if any_named else (("sel",) if any_sel else None)
+        else:
+            b = None
+        if not alt.items and alt.action == "none_sel":
+            alt.action = "named"
+            b = ("name", "m1", False)
+        pos = rng.randint(0, len(alt.items))
+        if rng.random() < 0.3 and alt.items:
+            alt.items[rng.randrange(len(alt.items))] = Item(m, b)
+        else:
+            alt.items.insert(pos, Item(m, b))
+        uses += 1
+    g.nts = g.nts + [d for d, _ in defs]
+    gen._assign_pids(g)
+    g.macro_uses = uses
+    return g
+
+
+# ------------------------------------------------------------------------------------------
+# profile `precedence` (C12)
+
+def gen_prec(rng):
+    ops = list("+-*/^!~?:,@%&|<>=")
+    rng.shuffle(ops)
+    nlev = rng.randint(2, 5)
+    levels = sorted(rng.sample(range(0, 12), nlev))
+    terms = ["n", "(", ")"]
+    alts = []   # (level, assoc, items)
+
+    def E():
+        return N("E")
+
+    def op():
+        o = ops.pop()
+        terms.append(o)
+        return T(o)
+    # the tightest level holds atoms (assoc must stay `all` there)
+    alts.append((levels[0], None, [T("n")]))
+    if rng.random() < 0.8:
+        alts.append((levels[0], None, [T("("), E(), T(")")]))
+    for l in levels[1:]:
+        for _ in range(rng.choice([1, 1, 2])):
+            if len(ops) < 3:
+                break
+            kind = rng.choice(["bin", "bin", "bin", "prefix", "postfix", "ternary", "nary", "grp", "opt"])
+            assoc = rng.choice(["left", "right", "none", "left", None, "all"])
+            if kind == "bin":
+                items = [E(), op(), E()]
+                if assoc in (None, "all"):
+                    assoc = rng.choice(["left", "right", "none"])
+            elif kind == "prefix":
+                items = [op(), E()]
+                assoc = rng.choice([None, "all", "right", "left", "none"])
+            elif kind == "postfix":
+                items = [E(), op()]
+                assoc = rng.choice([None, "all", "left", "right", "none"])
+            elif kind == "ternary":
+                items = [E(), op(), E(), op(), E()]
+                assoc = rng.choice(["left", "right", "none"])
+            elif kind == "nary":
+                items = [E(), op(), E(), op(), E()]
+                assoc = rng.choice(["left", "right", "none"])
+            elif kind == "grp":
+                from .gmodel import Grp as G_
+                items = [E(), G_([Item(op()), Item(E())])]
+                assoc = rng.choice(["left", "right", "none"])
+            else:
+                items = [op(), E(), Rep(op(), "?")]
+                assoc = rng.choice(["left", "right", "none", "all"])
+            alts.append((l, assoc, items))
+    # source order: interleave levels; each alternative gets explicit or inherited attributes
+    order = list(range(len(alts)))
+    if rng.random() < 0.6:
+        rng.shuffle(order)
+    out = []
+    cur_l, cur_a = None, "all"
+    for idx in order:
+        l, a, items = alts[idx]
+        eff = a if a is not None else "all"
+        pl = None
+        pa = None
+        if cur_l != l or rng.random() < 0.3:
+            pl = l
+            cur_l, cur_a = l, "all"
+        if eff != cur_a:
+            pa = eff
+            cur_a = eff
+        elif a is not None and rng.random() < 0.3 and not (l == levels[0]):
+            pa = eff
+        alt = Alt([Item(s) for s in items])
+        full_named(alt)
+        alt.prec = (pl, pa)
+        out.append(alt)
+    e = NT("E", out, ty="V", pub=rng.random() < 0.5)
+    nts = [e]
+    semi = ";"
+    terms.append(semi)
+    s_alt = Alt([Item(N("E")), Item(T(semi))])
+    full_named(s_alt)
+    s_alts = [s_alt]
+    if rng.random() < 0.5:
+        a2 = Alt([Item(N("S")), Item(N("E")), Item(T(semi))])
+        full_named(a2)
+        s_alts.append(a2)
+    nts.insert(0, NT("S", s_alts, ty="V", pub=True))
+    g = Grammar(nts, terms)
+    gen._assign_pids(g)
+    return g
